@@ -259,6 +259,7 @@ structure Item where
   variants : List Name := []
   evstream : Bool := false
   serdeAs : Bool := false    -- the struct carries `#[serde_with::serde_as]`
+  reqStruct : Bool := false  -- an operation request struct (derives no PartialEq): its `body` member is sent (client) / extracted (server)
   respEnum : Bool := false   -- a response enum (derives neither PartialEq nor serde): its payloads are decoded (client) / sent as Json (server)
   intoResp : Bool := false
   params : List Name := []
@@ -279,6 +280,7 @@ inductive Viol
   | undefinedType (name : Name)
   | privateAcross (file name : Name)
   | serde (item target : Name) (ser viaMap viaArr viaResp : Bool)
+  | bodyCap (item target : Name) (ser viaMap viaArr : Bool)
   | headerOptMismatch (item : Name)
   | serdeAsMismatch (item member : Name)
   | nestedNoValidate (item target : Name)
@@ -335,6 +337,15 @@ def serdeViols (m : Mod) : List Viol :=
       (if it.ser || (it.respEnum && server) then (incapable m (·.ser) 4 r.to r.map r.arr).map fun (t, mp, ar) => Viol.serde it.name t true mp ar (it.respEnum && r.wrap) else []) ++
       (if it.de || (it.respEnum && !server) then (incapable m (·.de) 4 r.to r.map r.arr).map fun (t, mp, ar) => Viol.serde it.name t false mp ar (it.respEnum && r.wrap) else [])
 
+/-- the `body` member of a request struct is handed to `.json(..)` / `.form(..)` (client: needs Serialize) or comes out
+of `axum::Json<..>` / `Form<..>` (server: needs Deserialize) -/
+def bodyViols (m : Mod) : List Viol :=
+  let server := m.mode == "server-mod".toList
+  m.types.flatMap fun it =>
+    if !(it.kind == "struct".toList && it.reqStruct) then [] else
+    (it.fields.filter (·.name == "body".toList)).flatMap fun fd => fd.refs.flatMap fun r =>
+      (incapable m (fun x => if server then x.de else x.ser) 4 r.to r.map r.arr).map fun (t, mp, ar) => Viol.bodyCap it.name t (!server) mp ar
+
 def nameViols (m : Mod) : List Viol :=
   (m.mentions.flatMap fun (file, names) =>
     let imported := ((m.imports.filter (·.1 == file)).flatMap (·.2))
@@ -386,7 +397,7 @@ def shapeViols (m : Mod) : List Viol :=
       !((m.imports.filter (·.1 == "types".toList)).flatMap (·.2)).contains d)).map Viol.missingImport
 
 /-- the well-formedness judgement: the list of violated closure obligations (empty = well-formed) -/
-def violations (m : Mod) : List Viol := nameViols m ++ serdeViols m ++ validateViols m ++ shapeViols m
+def violations (m : Mod) : List Viol := nameViols m ++ serdeViols m ++ bodyViols m ++ validateViols m ++ shapeViols m
 
 def WF (m : Mod) : Bool := (violations m).isEmpty
 
@@ -401,6 +412,7 @@ def classOf (m : Mod) : Viol → Option String
       -- a response variant's payload type is rebuilt from its TEXT (`TypeRef::new(schema.to_rust_type())` in responses.rs):
       -- `Option<T>` / `Vec<T>` / `EventStream<T>` are opaque atoms of the response enum's node
       else if viaResp then some "KnownResponseWrapperPayload" else none
+  | .bodyCap _ _ _ viaMap viaArr => if viaMap then some "KnownSerdeMapEdge" else if viaArr then some "KnownSerdeNestedArrayEdge" else none
   | .headerOptMismatch _ => some "KnownRequiredHeaderDefault"
   | .lengthNeedsSer _ _ => some "KnownLengthNeedsSerialize"
   | .dupParam _ => some "KnownRequestParamClash"
@@ -421,6 +433,9 @@ structure RErr where
   trait : Name
 deriving Repr, Inhabited
 
+/-- `get_a` and `GetA` name the same operation: compare without underscores and case -/
+def handlerKey (n : Name) : Name := (n.filter (· != '_')).map Char.toLower
+
 def codeIn (c : Name) (l : List String) : Bool := l.any fun s => s.toList == c
 
 /-- which rustc error a violation accounts for -/
@@ -428,6 +443,12 @@ def explains : Viol → RErr → Bool
   | .undefinedType n, e => codeIn e.code ["E0425", "E0412", "E0433", "E0422"] && e.name == n
   | .privateAcross f n, e => codeIn e.code ["E0425", "E0412", "E0433", "E0422", "E0603"] && e.file == f && e.name == n
   | .serdeAsMismatch it _, e => e.ikind == "struct".toList && e.iname == it && codeIn e.code ["E0308", "E0277", "E0271"]
+  | .bodyCap it tgt ser _ _, e =>
+      (codeIn e.code ["E0277"] && e.name == tgt && e.trait == (if ser then "Serialize".toList else "Deserialize".toList) &&
+        (e.ikind == "impl".toList || e.ikind == "fn".toList)) ||
+      -- server: the handler whose body extractor cannot decode is no `Handler` (reported in `router`, naming the handler `op_x` of `OpXRequest`)
+      (!ser && codeIn e.code ["E0277"] && e.file == "server".toList && e.iname == "router".toList &&
+        handlerKey e.name ++ "request".toList == handlerKey it)
   | .headerOptMismatch it, e => e.ikind == "impl".toList && e.iname == it && codeIn e.code ["E0308"]
   | .serde it tgt ser _ _ _, e =>
       -- at the holder itself, or DOWNSTREAM at a use site (parse_response / handler / IntoResponse bodies) that needs the same bound
